@@ -24,7 +24,7 @@ from gsvc import symrun
 from contracts import krige_common as kc
 from contracts import axioms as ax
 from contracts.krige_common import lemma, quiet, arr, dot, delta, terms
-from contracts.c05 import (MAXP, MAXP_FORK, BND, FN_CALL, FN_MAT, hint_cor0, aniso_iso_lemma, raw_call, not_close, spec_quadform,
+from contracts.c05 import (MAXP, MAXP_FORK, max_using, drift_using, BND, FN_CALL, FN_MAT, hint_cor0, aniso_iso_lemma, raw_call, not_close, spec_quadform,
                            _rhs_lemmas)
 
 P = "C06"
@@ -114,7 +114,7 @@ def _exact_body(ctx, variant, n, dim, mode, i, norm):
                             using=[W[j][0]] + S.model_req, generalize=[W[j][1]]))
         elif S.if0 <= j < S.ie0:
             L1.append(lemma(ctx, "L1:rhs=column-i-of-kriging-matrix(drift-rows)", ctx.eq(kv[j, 0], A[j, i]),
-                            using=ai[0] + S.model_req))
+                            **drift_using(ctx, S, ai[0])))
         else:
             L1.append(lemma(ctx, "L1:rhs=column-i-of-kriging-matrix(%s)" % ("cov-rows" if j < n else "unbiased,ext-rows"),
                             ctx.eq(kv[j, 0], A[j, i]), using=[h0] + S.model_req))
@@ -186,10 +186,10 @@ def variance_nonneg(ctx, variant, dim, err):
     if S.exact:
         not_close(ctx, S, pts)
     field, var = raw_call(ctx, S, tp, te)
-    ctx.ensure("krige_var>=0", ctx.ge(var[0], 0))
-    ctx.ensure("stored-krige_var>=0", ctx.ge(S.krige.krige_var[0], 0))
+    ctx.ensure("krige_var>=0", ctx.ge(var[0], 0), **max_using(ctx, var[0]))
+    ctx.ensure("stored-krige_var>=0", ctx.ge(S.krige.krige_var[0], 0), **max_using(ctx, S.krige.krige_var[0]))
     fpp, vpp = quiet(S.krige, tp, ext_drift=te)
-    ctx.ensure("returned(post_process=True)-krige_var>=0", ctx.ge(vpp[0], 0))
+    ctx.ensure("returned(post_process=True)-krige_var>=0", ctx.ge(vpp[0], 0), **max_using(ctx, vpp[0]))
 
 
 @contract(P, "Simple.__call__/variance<=sill",
@@ -216,7 +216,7 @@ def variance_le_sill(ctx, variant, n, dim, err):
     sill = S.model.var + S.model.nugget
     gen = (terms(kv) + terms(k)) if ctx.mode == "sym" else None
     ctx.ensure("krige_var<=sill", ctx.le(var[0], sill), using=R + [psd] + S.model_req, generalize=gen)
-    ctx.ensure("krige_var>=0", ctx.ge(var[0], 0))
+    ctx.ensure("krige_var>=0", ctx.ge(var[0], 0), **max_using(ctx, var[0]))
 
 
 # ---------------------------------------------------------------------------------------
